@@ -289,6 +289,7 @@ def oracle(spec):
         else:
             imap = {"junction": {int(j): int(j) + shift_j for j in na.junction.index},
                     "pipe": {int(p): int(p) + shift_p for p in na.pipe.index}}
+            oracles.mask_zero_flow_friction(na, nb)
             d = oracles.compare_results(na, nb, atol=1e-7, rtol=1e-6, index_map=imap, flow_scale_tol=1e-3)
             if d and not (oracles.degenerate(na) or oracles.degenerate(nb)):
                 fail("C17:relabel:results:%s%s" % (d[0][0], ":pipe-valve" if has_pv else ""), "results unchanged up to the relabelling",
@@ -312,6 +313,7 @@ def oracle(spec):
             if dgl:
                 fail("C17:subnet:dangling:%s.%s" % (dgl[0][0], dgl[0][2]), "no dangling references in the subnet", first=dgl[:3])
             else:
+                oracles.mask_zero_flow_friction(sub, na)
                 d = oracles.compare_results(sub, na, atol=1e-7, rtol=1e-6, subset=True, flow_scale_tol=1e-3)
                 if d and not (oracles.degenerate(na) or oracles.degenerate(sub)):
                     fail("C17:subnet:results:%s:%s%s" % (d[0][0], d[0][1], ":pipe-valve" if has_pv else ""),
